@@ -40,9 +40,9 @@ pub fn raw<'text, Sc, F, V>(mut parser: F)
     move |lexer, ctx| {
         let _trace_span = span!(Level::DEBUG, "~raw").entered();
 
-        let mut ctx = ctx.clone()
-            .locked(true);
-        let _ = ctx.take_local_context();
+        // Only the wrapped parser loses the error contexts: the contexts are
+        // shared with the caller and must not be removed from it.
+        let ctx = ctx.without_local_context();
         event!(Level::TRACE, "error contexts disabled");
 
         (parser)
@@ -62,8 +62,9 @@ pub fn unrecoverable<'text, Sc, F, V>(mut parser: F)
     move |lexer, ctx| {
         let _trace_span = span!(Level::DEBUG, "~unrec").entered();
 
-        let mut ctx = ctx.clone();
-        let _ = ctx.take_error_sink();
+        // Only the wrapped parser loses the error sink: the sink is shared
+        // with the caller and must not be removed from it.
+        let ctx = ctx.without_error_sink();
         event!(Level::TRACE, "error recovery disabled");
         
         (parser)
